@@ -76,6 +76,7 @@ type histRun struct {
 	fails   []core.Failure
 	newGCAs map[glow.PublicKey]keyPair
 	prop    string // "C11" | "C17": which property's clauses the oracle judges
+	plain   bool   // accepted replies repeat the client's list unchanged (deterministic scenarios)
 }
 
 func (h *histRun) count(c string) { h.counts[c]++ }
@@ -441,7 +442,7 @@ func (h *histRun) listFor(known map[glow.PublicKey]client.GCAServer, extra []ser
 		if !ok {
 			continue
 		}
-		if h.rng.Chance(25) {
+		if !h.plain && h.rng.Chance(25) {
 			continue
 		}
 		g := known[k]
@@ -449,12 +450,12 @@ func (h *histRun) listFor(known map[glow.PublicKey]client.GCAServer, extra []ser
 		if banKey != nil && *banKey == k {
 			ban = true
 		}
-		if g.Banned && h.rng.Chance(50) {
+		if !h.plain && g.Banned && h.rng.Chance(50) {
 			ban = false // an un-ban attempt, validly signed: must be ignored
 			h.count("reply.unban-attempt")
 		}
 		e := h.signedEntry(h.gca, f, ban)
-		if h.rng.Chance(20) { // same key, changed ports: must be ignored unless it is a ban
+		if !h.plain && h.rng.Chance(20) { // same key, changed ports: must be ignored unless it is a ban
 			e = mkAS(h.tab, h.gca, k, ban, "127.0.0.2", 10, f.port, 10)
 			h.count("reply.changed-ports")
 		}
@@ -527,7 +528,7 @@ func (h *histRun) mkBeh(kind string, f *fakeSrv, known map[glow.PublicKey]client
 		nf, _ := h.addFake(true)
 		m := mkMig(h.tab, newKey(), h.cd.dev.pub, ng.pub, uint32(h.rng.Range(1, 1<<20)), []server.AuthorizedServer{h.signedEntry(ng, nf, false)})
 		return send(signedWire(h.tab, spec.withMigration(m).content(), f.key))
-	case "migrate", "migrate0", "samegca", "badinner", "foreign-order":
+	case "migrate", "migrate0", "samegca", "badinner", "foreign-order", "selfsigned":
 		ng := newKey()
 		if kind == "samegca" {
 			ng = h.gca // an order that names the current GCA: nothing to migrate, the list is merged
@@ -552,7 +553,11 @@ func (h *histRun) mkBeh(kind string, f *fakeSrv, known map[glow.PublicKey]client
 		if kind == "foreign-order" {
 			eq = newKey().pub // a genuine order of the current GCA, but for another device
 		}
-		m := mkMig(h.tab, h.gca, eq, ng.pub, uint32(h.rng.Range(1, 1<<30)), ns)
+		outer := h.gca
+		if kind == "selfsigned" {
+			outer = ng // the order is signed by the NEW GCA itself instead of the current one
+		}
+		m := mkMig(h.tab, outer, eq, ng.pub, uint32(h.rng.Range(1, 1<<30)), ns)
 		b := send(signedWire(h.tab, spec.withMigration(m).content(), f.key))
 		switch kind {
 		case "migrate", "migrate0":
@@ -579,13 +584,13 @@ func (h *histRun) mkBeh(kind string, f *fakeSrv, known map[glow.PublicKey]client
 		return b
 	case "success", "delayed", "early":
 		var extra []server.AuthorizedServer
-		if h.rng.Chance(40) {
+		if !h.plain && h.rng.Chance(40) {
 			nf, _ := h.addFake(h.rng.Chance(60))
 			extra = append(extra, h.signedEntry(h.gca, nf, h.rng.Chance(25)))
 			h.count("reply.new-server")
 		}
 		var banKey *glow.PublicKey
-		if h.rng.Chance(35) {
+		if !h.plain && h.rng.Chance(35) {
 			ks := sortedKeys(known)
 			k := ks[h.rng.Intn(len(ks))]
 			banKey = &k
@@ -851,7 +856,7 @@ func rogueSuite(seed uint64, tier, outDir string) (*core.Result, error) {
 		kind string
 	}
 	var jobs []job
-	forced := []string{"single-down", "all-banned", "all-failed", "six-servers", "mixed", "mixed"}
+	forced := []string{"single-down", "all-banned", "all-failed", "six-servers", "all-kinds", "mixed"}
 	for _, c := range corpus {
 		if c.Kind == "round-single-down" {
 			forced = append([]string{"single-down"}, forced...)
@@ -922,7 +927,8 @@ func rogueSuite(seed uint64, tier, outDir string) (*core.Result, error) {
 
 	res.Required = append(res.Required, "sweep.edge", "sweep.short-read", "sweep.stale", "rogue.edge-random", "rogue.edge-zero", "rogue.random-length",
 		"round.single-down", "round.all-banned", "round.all-failed", "round.six-servers", "attempt.refuse", "attempt.reset", "attempt.short",
-		"attempt.badsig", "attempt.success", "hist.load", "liveness.report-after-failed-sync", "liveness.sync-retried")
+		"attempt.badsig", "attempt.stale", "attempt.future", "attempt.wrongdev", "attempt.badsrvsig", "attempt.badlen", "attempt.rogue-short",
+		"attempt.garbage", "attempt.tiny", "attempt.badmig", "attempt.refusal-byte", "attempt.success", "attempt.delayed", "attempt.early", "hist.load", "liveness.report-after-failed-sync", "liveness.sync-retried")
 	res.Rule = "A: every length prefix edge (0..65535) with unsigned bodies, short reads; B: contents of 64..1100 bytes correctly signed by the contacted server (random / zero), genuine replies mutated in the list region and re-signed; C: client histories over 1..6 scripted servers with per-round behaviours and restarts (non-trivial = at least one accepted reply, distinct by full transcript); D: real client with the reporting loop and a dead server"
 	return res, nil
 }
@@ -936,6 +942,8 @@ func runRogueHistory(h *histRun, kind string, thorough bool) error {
 		n = 1
 	case "six-servers":
 		n = 6
+	case "all-kinds":
+		n = 1
 	}
 	initial := map[glow.PublicKey]client.GCAServer{}
 	for i := 0; i < n; i++ {
@@ -950,6 +958,8 @@ func runRogueHistory(h *histRun, kind string, thorough bool) error {
 			banned = false
 		case "six-servers":
 			listen, banned = i == 0 || rng.Chance(50), false
+		case "all-kinds":
+			listen, banned = true, false
 		}
 		f, err := h.addFake(listen)
 		if err != nil {
@@ -961,6 +971,11 @@ func runRogueHistory(h *histRun, kind string, thorough bool) error {
 		return err
 	}
 	rounds := rng.Range(3, 6)
+	allKinds := append(append([]string{}, failKinds...), "success", "delayed", "early")
+	if kind == "all-kinds" {
+		rounds = len(allKinds)
+		h.plain = true
+	}
 	for r := 0; r < rounds && !h.dead; r++ {
 		known := stateMap(client.VerifState(h.c))
 		plan := map[glow.PublicKey]beh{}
@@ -977,6 +992,12 @@ func runRogueHistory(h *histRun, kind string, thorough bool) error {
 			if kind == "all-failed" && r == 0 {
 				bk = failKinds[rng.Intn(len(failKinds))]
 			}
+			if kind == "all-kinds" {
+				bk = allKinds[r]
+				if k != h.order[0] {
+					bk = "reset"
+				}
+			}
 			if kind == "six-servers" && r == 0 {
 				bk = "reset"
 				if k == h.order[0] {
@@ -989,7 +1010,7 @@ func runRogueHistory(h *histRun, kind string, thorough bool) error {
 			label = "mixed"
 		}
 		h.round(plan, label)
-		if !h.dead && rng.Chance(30) {
+		if !h.dead && rng.Chance(30) && kind != "all-kinds" {
 			h.load()
 		}
 	}
